@@ -42,7 +42,7 @@ def gen_spec(rng: random.Random) -> dict:
 
     def gen_fields(n: int, allow_required: bool, allow_nested: bool) -> List[dict]:
         fs = []
-        kinds_pool = ["dflt", "dflt", "fact", "das", "noinit", "initvar_d", "kwonly", "kwreq"]
+        kinds_pool = ["dflt", "dflt", "fact", "das", "noinit", "noinit_fact", "initvar_d", "kwonly", "kwreq"]
         if allow_nested:
             kinds_pool.append("nested")
         n_req = rng.randint(0, min(2, n)) if allow_required else 0
@@ -90,7 +90,7 @@ def gen_spec(rng: random.Random) -> dict:
     top = classes[-1]
     allf = [f for c in classes for f in c["fields"]]
     has_iv = any(f["kind"] in ("initvar", "initvar_d") for f in allf)
-    assignable = [f["name"] for f in allf if f["kind"] in ("dflt", "fact", "das", "noinit", "req")]
+    assignable = [f["name"] for f in allf if f["kind"] in ("dflt", "fact", "das", "noinit", "noinit_fact", "req")]
     post = None
     if top.get("handwritten"):
         top = classes[0]  # __post_init__ (if any) belongs to the dataclass-generated __init__ of K0
@@ -162,6 +162,8 @@ def render(spec: dict) -> str:
                 body.append("%s: Optional[int] = field(default=None%s)" % (n, mds))
             elif k == "noinit":
                 body.append("%s: int = field(default=5, init=False%s)" % (n, mds))
+            elif k == "noinit_fact":
+                body.append("%s: int = field(default_factory=lambda: 6, init=False%s)" % (n, mds))
             elif k == "initvar":
                 body.append("%s: InitVar[int]" % n)
             elif k == "initvar_d":
@@ -207,10 +209,10 @@ class Shape:
         kw_kinds = ("kwonly", "kwreq")
         # positional order of the generated __init__: ordinary parameters first, keyword-only after
         self.pos_params = [f["name"] for f in self.fields
-                           if f["kind"] != "noinit" and f["kind"] not in kw_kinds and f["name"] not in self.own]
+                           if f["kind"] not in ("noinit", "noinit_fact") and f["kind"] not in kw_kinds and f["name"] not in self.own]
         self.init_params = self.pos_params + [f["name"] for f in self.fields if f["kind"] in kw_kinds] + self.own
         self.required = [f["name"] for f in self.fields if f["kind"] in ("req", "initvar", "kwreq")]
-        self.always = {f["name"] for f in self.fields if f["kind"] in ("das", "noinit")}
+        self.always = {f["name"] for f in self.fields if f["kind"] in ("das", "noinit", "noinit_fact")}
         self.nested = {f["name"] for f in self.fields if f["kind"] == "nested"}
         # the __post_init__ that runs for this class: its own, or the inherited one when the class
         # keeps (or delegates to) the base's generated __init__
@@ -542,7 +544,7 @@ def child_run(plan: dict) -> dict:
                 changes = {}
                 for k in op[2]:
                     n = pick_name(sh, k)
-                    if sh.by_name[n]["kind"] == "noinit" or n in sh.nested:
+                    if sh.by_name[n]["kind"] in ("noinit", "noinit_fact") or n in sh.nested:
                         continue
                     changes[n] = op[3]
                 for iv in sh.initvars:
@@ -560,7 +562,7 @@ def child_run(plan: dict) -> dict:
                 kw = {}
                 for k in op[2]:
                     n = pick_name(sh, k, real_only=False)
-                    if sh.by_name[n]["kind"] == "noinit" or n in sh.nested:
+                    if sh.by_name[n]["kind"] in ("noinit", "noinit_fact") or n in sh.nested:
                         continue
                     kw[n] = op[3]
                 for r_ in sh.required:
